@@ -60,11 +60,15 @@ pub fn gen_value(rng: &mut Rng, shape: u8, i: u64, len: u64, scale: f64) -> f64 
             if rng.chance(1, 2) { v } else { -v }
         }
         7 => {
-            // +-0.0 and tiny values
-            match rng.below(4) {
+            // +-0.0, tiny values, and the largest finite magnitudes (differences of two of them overflow)
+            match rng.below(6) {
                 0 => 0.0,
                 1 => -0.0,
                 2 => f64::MIN_POSITIVE * rng.f64(),
+                3 => {
+                    let v = if rng.chance(1, 2) { f64::MAX } else { (1.0 + 0.79 * rng.f64()) * 1e308 };
+                    if rng.chance(1, 2) { v } else { -v }
+                }
                 _ => rng.f64() * scale,
             }
         }
